@@ -177,6 +177,23 @@ var messageCheck = &core.Check{Name: "c16/message", Quick: 3000, Thorough: 25000
 		}
 		c.Class("canonical form compared")
 	}
+	// a caller that looks at the variable-length destination of the decoded message (reading moves the read
+	// position of that bit string, nothing else) has not changed the message: same normalised hash afterwards
+	if info := plain.Info.ExtInMsgInfo; info != nil && info.Dest.AddrVar != nil {
+		a := &info.Dest.AddrVar.Address
+		switch c.Choose("look", 3) {
+		case 0:
+			_, _ = a.ReadBit()
+		case 1:
+			_, _ = a.ReadUint(min(64, a.BitsAvailableForRead()))
+		case 2:
+			_, _ = a.ReadBits(a.BitsAvailableForRead())
+		}
+		if h := plain.Hash(true); h != norm {
+			return fmt.Errorf("normalised hash changed (%x -> %x) after the caller read bits of the decoded addr_var destination", norm, h)
+		}
+		c.Class("variable-length destination read before the normalised hash was asked again")
+	}
 	// equivalence class: the ignored parts vary, the normalised hash must not
 	members := 0
 	for i := 0; i < 4; i++ {
